@@ -7,6 +7,7 @@ import (
 	"fmt"
 	"os"
 	"reflect"
+	"runtime/debug"
 	"strings"
 	"testing"
 
@@ -47,13 +48,15 @@ func open(id string) bool { return runlog.IsOpen(id) || avoidEnv[id] }
 
 type typeFacts struct {
 	namedString      bool // D45: named string type (Unpack hangs)
-	mapOfStructOrArr bool // D31: map[string]Struct / map[string][N]T (merging into pre-filled entries panics)
+	mapOfStructOrArr bool // D31: map[string]Struct / map[string][N]T / map[string]map[..] (merging into pre-filled entries panics: map elements are not addressable)
 	ptrCollElems     bool // D42: collection elements that are pointers to slices or arrays
 	tagOnPtr         bool // D23: validate tag on a pointer-typed field (incl. *regexp.Regexp)
 	ptrToColl        bool // D30: pointer to slice / array / map anywhere
 	tagOnPtrToMap    bool // D32: validate tag on a *map field
 	mapWithValidator bool // D35: map whose element type carries validators
-	tagOnArray       bool // D41: required / nonzero on a fixed-size array field
+	tagOnArray       bool // D41: required / nonzero on a field that is, or holds, a fixed-size array
+	tagOnNamedString bool // D47: required / nonzero ignored on fields of a named string type
+	ptrPtrValidator  bool // D49: Validate() of an unmentioned pre-filled value behind two or more pointer levels is not called
 	validators       int  // tags and Validate methods in the type
 	cats             map[string]bool
 	ptr, slice, array, mapk, inline, dur, named bool
@@ -87,6 +90,11 @@ func (f *typeFacts) scan(td *gen.TD) {
 		f.dur = true
 	case "ptr":
 		f.ptr = true
+		if sh.Elem.Kind == "ptr" {
+			if base, _ := stripPtr(sh.Elem); cats[base.Kind].valid != nil {
+				f.ptrPtrValidator = true
+			}
+		}
 		switch sh.Elem.Shape().Kind {
 		case "slice", "array", "map":
 			f.ptrToColl = true
@@ -101,7 +109,7 @@ func (f *typeFacts) scan(td *gen.TD) {
 		default:
 			f.mapk = true
 			switch sh.Elem.Shape().Kind {
-			case "struct", "array":
+			case "struct", "array", "map":
 				f.mapOfStructOrArr = true
 			}
 			if hasValidators(sh.Elem) {
@@ -129,8 +137,14 @@ func (f *typeFacts) scan(td *gen.TD) {
 				if nptr > 0 && base.Shape().Kind == "map" {
 					f.tagOnPtrToMap = true
 				}
-				if base.Shape().Kind == "array" {
-					f.tagOnArray = true
+				// (the code applies the tag to nested collections as well)
+				for x := fd.T; x != nil && x.Shape().Kind != "struct"; x = x.Shape().Elem {
+					if x.Shape().Kind == "array" {
+						f.tagOnArray = true
+					}
+				}
+				if base.Kind == "named:string" {
+					f.tagOnNamedString = true
 				}
 			}
 			f.scan(fd.T)
@@ -146,7 +160,7 @@ func (f *typeFacts) avoided() string {
 	}{
 		{"D45", f.namedString}, {"D31", f.mapOfStructOrArr}, {"D42", f.ptrCollElems},
 		{"D23", f.tagOnPtr}, {"D30", f.ptrToColl}, {"D32", f.tagOnPtrToMap},
-		{"D35", f.mapWithValidator}, {"D41", f.tagOnArray},
+		{"D35", f.mapWithValidator}, {"D41", f.tagOnArray}, {"D47", f.tagOnNamedString}, {"D49", f.ptrPtrValidator},
 	} {
 		if c.hit && open(c.id) {
 			return c.id
@@ -193,8 +207,8 @@ func runCase(c Case, r *runlog.R) error {
 	}
 
 	// R: what a validation-free Unpack produces
-	if err := uc.Safe("Unpack(twin)", func() error { return cfg.Unpack(twin.Interface(), opts...) }); err != nil {
-		if strings.Contains(err.Error(), "panicked") {
+	if err, panicked := safely(func() error { return cfg.Unpack(twin.Interface(), opts...) }); err != nil {
+		if panicked {
 			return fmt.Errorf("Unpack into the twin type (no validators) panicked: %v%s", err, describe())
 		}
 		// the configuration does not convert into the type: outside the property's subject
@@ -205,6 +219,11 @@ func runCase(c Case, r *runlog.R) error {
 
 	w := &walker{root: c.Cfg, varexp: c.VarExp}
 	w.walk(c.T, twin.Elem(), pos{cfg: c.Cfg})
+	if w.d48 && open("D48") {
+		r.Excluded("D48")
+		r.Discard()
+		return nil
+	}
 	var strict, soft []*eval
 	for i := range w.evals {
 		e := &w.evals[i]
@@ -218,8 +237,8 @@ func runCase(c Case, r *runlog.R) error {
 	}
 
 	real := c.T.New(c.Pre)
-	uerr := uc.Safe("Unpack", func() error { return cfg.Unpack(real.Interface(), opts...) })
-	if uerr != nil && strings.Contains(uerr.Error(), "panicked") {
+	uerr, panicked := safely(func() error { return cfg.Unpack(real.Interface(), opts...) })
+	if panicked {
 		return fmt.Errorf("Unpack panicked: %v%s", uerr, describe())
 	}
 
@@ -254,12 +273,27 @@ func runCase(c Case, r *runlog.R) error {
 				}
 			}
 		}
-		if !match {
-			if (!ok || named == "") && open("D44") {
-				r.Excluded("D44")
-			} else {
-				return fmt.Errorf("Unpack failed, but the error does not name a rejected field or a field enclosing it: %v\n rejected: %s%s", uerr, showEvals(append(append([]*eval{}, strict...), soft...)), describe())
+		if !match && open("D44") {
+			// class of D44: the names of absent struct fields on the way are
+			// missing from the path ("x" or "a.x" instead of "a.b.x"), or no
+			// path is quoted at all
+			d44 := !ok || named == ""
+			for _, e := range append(append([]*eval{}, strict...), soft...) {
+				for _, full := range append([][]string{e.path}, e.alts...) {
+					for i := 2; i <= len(full); i++ {
+						if missesSegments(strings.Split(named, "."), full[:i]) {
+							d44 = true
+						}
+					}
+				}
 			}
+			if d44 {
+				r.Excluded("D44")
+				match = true
+			}
+		}
+		if !match {
+			return fmt.Errorf("Unpack failed, but the error does not name a rejected field or a field enclosing it: %v\n rejected: %s%s", uerr, showEvals(append(append([]*eval{}, strict...), soft...)), describe())
 		}
 	}
 
@@ -341,6 +375,35 @@ func runCase(c Case, r *runlog.R) error {
 		r.Class("type: " + k)
 	}
 	return nil
+}
+
+// missesSegments reports whether named is path with some segments left out
+// (same last segment).
+func missesSegments(named, path []string) bool {
+	if len(named) == 0 || len(named) >= len(path) || named[len(named)-1] != path[len(path)-1] {
+		return false
+	}
+	i := 0
+	for _, seg := range path {
+		if i < len(named) && named[i] == seg {
+			i++
+		}
+	}
+	return i == len(named)
+}
+
+// safely runs f; a panic is returned as an error with the second result set.
+func safely(f func() error) (err error, panicked bool) {
+	defer func() {
+		if p := recover(); p != nil {
+			st := string(debug.Stack())
+			if len(st) > 2500 {
+				st = st[:2500]
+			}
+			err, panicked = fmt.Errorf("%v\n%s", p, st), true
+		}
+	}()
+	return f(), false
 }
 
 func showTree(t *gen.Tree) string { return fmt.Sprintf("%v", showGo(t)) }
